@@ -15,8 +15,14 @@
   * `C20_scratch_rewritten`: the first character of a command line (`T` after `A`) re-initialises
     the match bits, index, length and request type; the search cursor is re-initialised before
     every search.
+  * `C20_setters_generated` (translator item T7): the functions through which the per-line fields
+    are (re)written — `reset_state`, `prepare_parse_command`, `prepare_search_command`,
+    `start_flush_io_buffer`, `start_flush_io_buffer_raw`, `enable_hold_state` and the unsolicited
+    machine's two — are, in the model, the record updates regenerated from the assignment
+    statements of `src/cat.c` on every run.
 -/
 import CatVerif.Proofs.Quiesce
+import CatVerif.Proofs.Setters
 namespace Cat
 open St
 
@@ -104,5 +110,19 @@ theorem C20_scratch_rewritten (D : Desc) (s : St) :
     (prepareParseCommand D s).index = 0 ∧ (prepareParseCommand D s).length = 0 ∧ (prepareParseCommand D s).cmdType = .run ∧
     (prepareSearchCommand s).index = 0 ∧ (prepareSearchCommand s).partialCntr = 0 ∧ (prepareSearchCommand s).cmd = none := by
   simp [prepareParseCommand, prepareSearchCommand]
+
+/-- the model's per-line (re)initialisers are the assignment lists of the source (T7) -/
+theorem C20_setters_generated (D : Desc) (s : St) (a : After) :
+    resetState s = Gen.reset_state D s ∧
+    prepareParseCommand D s = Gen.prepare_parse_command D s ∧
+    prepareSearchCommand s = Gen.prepare_search_command D s ∧
+    startFlush s .cmd a = (Gen.start_flush_io_buffer D s a).emit (.flushStart .cmd false) ∧
+    startFlushRaw s a = (Gen.start_flush_io_buffer_raw D s a).emit (.flushStart .cmd true) ∧
+    startFlush s .uns a = (Gen.unsolicited_start_flush_io_buffer D s a).emit (.flushStart .uns false) ∧
+    unsolicitedResetState s = Gen.unsolicited_reset_state D s ∧
+    enableHoldState s = Gen.enable_hold_state D s :=
+  ⟨resetState_generated D s, prepareParseCommand_generated D s, prepareSearchCommand_generated D s,
+   startFlush_cmd_generated D s a, startFlushRaw_generated D s a, startFlush_uns_generated D s a,
+   unsolicitedResetState_generated D s, enableHoldState_generated D s⟩
 
 end Cat
